@@ -374,12 +374,14 @@ func c16OracleExhaustive(ctx *core.Ctx) {
 	}
 	// E1: one key over {penv, f1, f2, f3} × environment state × how each file mentions it
 	labelCfg := 0
-	for penv := 0; penv < 2; penv++ {
+	for penv := 0; penv < 3; penv++ { // absent, with a value, present with the empty value
 		for kinds := 0; kinds < 64; kinds++ {
 			for st := 0; st < 4; st++ {
 				o := c16OracleArgs{Penv: map[string]string{}, Keys: []string{"K"}, Environment: c16EnvState("K", st)}
 				if penv == 1 {
 					o.Penv["K"] = "P.K"
+				} else if penv == 2 {
+					o.Penv["K"] = ""
 				}
 				for f := 0; f < 3; f++ {
 					tag := fmt.Sprintf("F%d", f+1)
@@ -494,8 +496,11 @@ func c16OracleRandom(ctx *core.Ctx) {
 		keys := []string{"K1", "K2", "K3", "K4"}[:nk]
 		o := c16OracleArgs{Penv: map[string]string{}, Keys: keys, Discard: r.Intn(2) == 0, ListForm: r.Intn(2) == 0}
 		for _, k := range keys {
-			if r.Intn(2) == 0 {
+			switch r.Intn(6) {
+			case 0, 1, 2:
 				o.Penv[k] = "P." + k
+			case 3:
+				o.Penv[k] = ""
 			}
 			o.Environment = append(o.Environment, c16EnvState(k, r.Intn(4))...)
 			switch r.Intn(4) {
